@@ -44,22 +44,23 @@ P = {
         "n_quick": 400, "n_thorough": 6000, "shard": 150,
         "findings": {2: "C15-F2", 3: "C15-F3", 5: "C15-F5", 8: "C15-F8"},
     }],
-    "rule": "requests written byte for byte over TCP (request target of 1-4 segments built from words, percent-escapes of reserved / "
-            "unreserved / non-ASCII bytes in either hex case, reserved literals, bytes net/url re-encodes, broken escapes; queries with "
-            "repeated, encoded, empty, unparsable parameters; header names in random casing colliding with pipeline header names; "
-            "X-Forwarded-* / Forwarded / Connection fields; 14 methods; bodies with Content-Length or chunked framing) from 5 loopback source "
-            "addresses against 3 trusted_proxies configurations x rule (allow_encoded_slashes off/on/no_decode, forward_to with every "
-            "combination of scheme / strip_path_prefix (hit, miss, inside an escape) / add_path_prefix / strip_query_parameters) x pipeline "
-            "output (headers in any casing incl. Host, Cookie and forwarding names, cookies, body read) through the real proxy service, "
-            "rule factory, ruleImpl.Execute, CreateURL/Rewrite, ReverseProxy and Transport to raw TCP upstreams (plain and TLS); corpus "
-            "(every finding's witness, the non-vacuity example, edge targets) first.  Non-trivial = forwarded AND at least one of: an escaped "
-            "path met strip/add prefix, a stripped parameter was present, a client header collided with a pipeline header, the client sent "
-            "a forwarding / X-Forwarded-Method/-Uri/-Path field; distinct by hash of the input (upstream port excluded).  Stream units: "
-            "Backend.CreateURL on arbitrary url.URL values (RawPath empty / consistent / inconsistent with Path, '*', relative paths) x rewrite "
-            "configurations; non-trivial = an escaped path met strip/add prefix or a query met strip_query_parameters.  Stream e2e: the real "
-            "assembled proxy application (fx wiring of cmd/serve, YAML configuration and rule file with 24 generated rules /r<i>/**, real "
-            "executor, repository, anonymous authenticator, header and cookie finalizers) under 2 trusted_proxies configurations, same "
-            "request generator and evaluator; non-trivial = forwarded.",
+    "rule": "Stream proxy (in-package): requests written byte for byte over TCP or TLS (request target of 1-4 segments built from words, "
+            "percent-escapes of reserved / unreserved / non-ASCII bytes in either hex case, reserved literals, bytes net/url re-encodes, broken "
+            "escapes, bare '?'; queries with repeated, encoded, empty, unparsable parameters; header names from pools AND fresh names "
+            "(Content-Type, Traceparent, Via, X-<random token>), random casing, colliding with pipeline header names; values incl. the empty "
+            "string; X-Forwarded-* / Forwarded (also in two field lines) / Connection fields, CORS preflights; 14 methods; bodies 0 B .. 2 MiB "
+            "with Content-Length or chunked framing; kept-alive connections re-used) from 5 loopback source addresses against 3 "
+            "trusted_proxies configurations x rule (allow_encoded_slashes off/on/no_decode, forward_to host by address or name with every "
+            "combination of scheme / strip_path_prefix (hit, miss, inside an escape) / add_path_prefix / strip_query_parameters biased to "
+            "present keys) x pipeline output (headers in any casing incl. empty values, Host, Cookie, forwarding names, names of client "
+            "fields; cookies; body read) through the real proxy service, rule factory, ruleImpl.Execute, CreateURL/Rewrite, ReverseProxy and "
+            "Transport to raw TCP upstreams (plain and TLS); corpus (every finding's witness, the audit's cases, edge targets) first.  "
+            "Non-trivial = forwarded AND at least one of: an escaped path met strip/add prefix, a stripped parameter was present, a client "
+            "header collided with a pipeline header, the client sent a forwarding / X-Forwarded-Method/-Uri/-Path field; distinct by hash of "
+            "the input.  Stream units: Backend.CreateURL on arbitrary url.URL values x rewrite configurations.  Stream e2e: the real assembled "
+            "proxy application (fx wiring of cmd/serve, YAML configuration and rule file with 24 generated rules /r<i>/**, real executor, "
+            "repository, anonymous authenticator, header and cookie finalizers, tracing ENABLED) under 2 trusted_proxies configurations, "
+            "cases sent in parallel batches of 8 with a correlation field; non-trivial = forwarded.",
     "anchors": ["internal/rules/config/backend.go", "internal/rules/config/url_rewriter.go", "internal/rules/rule_impl.go",
                 "internal/handler/proxy/request_context.go", "internal/handler/proxy/service.go",
                 "internal/handler/requestcontext/extract_url.go", "internal/handler/requestcontext/extract_method.go",
@@ -76,27 +77,34 @@ P = {
         "AddHeaderForUpstream / AddCookieForUpstream / Body()",
     ],
     "level_text": "Proof (kernel-checked, closed under the global context) about an executable model of the proxy path client bytes -> request view -> "
-                  "ruleImpl.Execute/CreateURL/Rewrite -> ReverseProxy/rewriteRequest -> upstream bytes. Main theorem C15_spec_holds: for ALL requests "
-                  "(any bytes in path, query, header names/values, body), ALL pipeline outputs and ALL rules / rewrite configurations on which none "
-                  "of the three open findings shows (guards: trusted X-Forwarded-Method differs; `on` with a path net/url would re-spell; "
-                  "add_path_prefix not a valid encoded path), what the model forwards satisfies every sentence of the property (spec_ok: scheme, "
-                  "host, wire path = add ++ (raw path minus strip prefix) byte for byte, removed query parameters key by key, method, body, every "
-                  "header field name by name: pipeline values replace client values in any casing, X-Forwarded-Method/-Uri/-Path never pass, "
-                  "X-Forwarded-For or Forwarded extended by the peer, other fields unchanged, hop-by-hop dropped). Separately: no double encoding "
-                  "for every setting/configuration (C15_decoded_path), removed query parameters for EVERY query incl. unparsable ones "
-                  "(C15_query_only_removed, after the repair of C15-F1), ParseQuery/Encode round trip, field names in any casing. Two findings "
-                  "repaired by fix: commits (C15-F1 41fd1db, C15-F4 35453b2; pinned behaviour kept as _pinned_refuted), three open findings proved "
-                  "as refutations with guards. The model is tied to the code by running both on ~1250 (quick) / 30000 (thorough) generated requests "
-                  "per run through the real proxy service and comparing method, request target, Host, all header fields and body at raw TCP "
-                  "upstream servers; the evaluator also checks spec_ok on the implementation's observation.",
-    "level_note": "Trusted: Coq kernel/vm_compute; the harness (generator, stub executor/authenticator, raw TCP client and upstream, Gallina rendering); "
-                  "net/http server parsing, ReverseProxy and Transport behaviour is modelled as observed (not verified); Base/GoUrl mirrors net/url "
-                  "(checked by C08's gourl stream and end to end here). The request view (trusted X-Forwarded-Proto/-Uri/-Host) is taken as 'the "
-                  "original' request; its url.Parse is an oracle. Not generated, not modelled: CONNECT, Upgrade/Te/Expect, pipeline headers named "
-                  "like framing/hop-by-hop fields, cookie values needing sanitising, pipeline Host values that are not plain host names, TLS "
-                  "towards heimdall.",
+                  "ruleImpl.Execute/CreateURL/Rewrite -> ReverseProxy/rewriteRequest -> upstream bytes. Main theorem C15_spec_holds: for a tree with "
+                  "the repairs that are in /repo, ALL requests (any bytes in path, query, header names/values, body; TLS or not), ALL pipeline "
+                  "outputs and ALL rules / rewrite configurations on which none of the open findings shows (guards: trusted X-Forwarded-Method "
+                  "differs; `on` with a path net/url would re-spell; add_path_prefix not a valid encoded path; tracing on and a pipeline trace "
+                  "header), what the model forwards satisfies spec_ok — a predicate on the OBSERVATION written from the statement only: "
+                  "scheme, Host, wire path = add ++ (raw path minus strip prefix) byte for byte, kept query settings byte for byte in order, "
+                  "method, body, and per header name: pipeline values (empty ones included) replace client values in any casing, "
+                  "X-Forwarded-Method/-Uri/-Path never pass, X-Forwarded-For or Forwarded is the whole received chain extended by the peer, "
+                  "client fields nobody touches arrive as sent. Separately: no double encoding for every setting/configuration (also inside the "
+                  "guards), removed query parameters key by key for EVERY query, ParseQuery/Encode round trip, field names in any casing, "
+                  "every upstream field name by name. Four findings repaired by fix: commits (C15-F1 41fd1db, -F4 35453b2, -F6 5270ed2, -F7 "
+                  "f228b67; pinned behaviour kept as refutation theorems), four open findings (F2, F3, F5, F8) proved/recorded with guards. The "
+                  "model is tied to the code by ~3150 (quick) / 76000 (thorough) generated cases per run through the real proxy service, "
+                  "Backend.CreateURL and the assembled application; the evaluator checks spec_ok on the implementation's observation and "
+                  "compares a projection (fields somebody sent, status class) for correspondence.",
+    "level_note": "Trusted: Coq kernel/vm_compute; the harness (generators, stub executor/authenticator, raw TCP/TLS client and upstreams, Gallina "
+                  "rendering, sha256 projection of bodies > 512 B); net/http server parsing, ReverseProxy and Transport behaviour is modelled as "
+                  "observed (not verified); Base/GoUrl mirrors net/url (checked by C08's gourl stream and end to end here). DEFINITIONAL in the "
+                  "model, hence assured by correspondence and by spec_ok on observations only: the body is passed through, the method is the "
+                  "view's, scheme/Host/request line are assembled as Rewrite.v says. The request view (trusted X-Forwarded-Proto/-Uri/-Host; "
+                  "re-encoding of invalid bytes, C08-F4) is taken as 'the original' request; its url.Parse is an oracle. The quantifier is "
+                  "restricted to origin-form targets (the model answers 'not forwarded' otherwise). Not generated, not modelled: CONNECT, "
+                  "Upgrade/Te/Expect/trailers, absolute-form and `*` targets, pipeline headers named like framing/hop-by-hop fields, cookie "
+                  "values needing sanitising, pipeline Host values that are not plain host names, HTTP/2. The OpenTelemetry transport "
+                  "wrapper is not modelled (trace headers are projected out when tracing is on; C15-F8 is an observed finding). The "
+                  "in-package stream is sequential; cross-request leakage is looked for only by the e2e stream's parallel batches.",
     "assumptions": [
-        "the upstream speaks HTTP/1.1 (ALPN offers only http/1.1 on the TLS upstream), heimdall itself is reached without TLS",
+        "the upstream speaks HTTP/1.1 (ALPN offers only http/1.1 on the TLS upstream and on heimdall's TLS listener)",
         "header values are sent without leading/trailing blanks; names are RFC 7230 tokens",
         "the in-package driver uses newService, tlsClientConfig and rules.NewRuleFactory: renaming them breaks the driver, not the property",
     ],
